@@ -84,7 +84,8 @@ class CoverageSaveVisitor(ModelVisitor):
         inst_location = None
 
         if cg.type_cg is None:
-            print("cg.typename=%s" % cg.typename)
+            # Instance names are unique among the instances of one type
+            self.cg_name_s = set()
             if cg.srcinfo_decl is not None:
                 fh = self.get_file_handle(cg.srcinfo_decl.filename)
                 inst_location = SourceInfo(
